@@ -119,20 +119,28 @@ def run_unit(uname, tier, prop):
             canary_failed.add(fn)
             continue
         # obligation id: prefer a contract clause among the spans
-        oid, props, repo = None, None, None
+        oid, props, repo, callee = None, None, None, None
         for (_, _, t, _) in tags:
             if t.kind == "contract" and oid is None:
                 oid, props = t.clause, t.props
             if t.kind == "repo" and repo is None:
                 repo = "%s:%s" % (t.repo_file, t.repo_line)
+            if t.kind in ("prelude", "spec") and t.fn and callee is None:
+                callee = t.fn
         if prim is not None and prim.kind == "repo":
-            # failure located in repo code (safety / callee precondition)
             repo = "%s:%s" % (prim.repo_file, prim.repo_line)
-            callee = oid
-            oid = "%s.%s.safety@%s" % (uname, fn, short_msg(d.message))
-            if callee:
-                oid += "<" + callee.split(".", 1)[-1] + ">"
-            props = prim.props
+            if oid is not None and fn and oid.startswith("%s.%s." % (uname, fn)):
+                # a clause of this very function (invariant at a continue/break, post at a return)
+                pass
+            else:
+                # failure located in repo code: panic-freedom / callee precondition
+                c2 = oid.split(".", 1)[-1] if oid else callee
+                oid = "%s.%s.safety@%s" % (uname, fn, short_msg(d.message))
+                if c2:
+                    oid += "<" + c2 + ">"
+                props = None
+                sp = getattr(uf, "safety_props", {}).get(fn)
+                props = sp if sp is not None else prim.props
         if oid is None:
             oid = "%s.%s.%s" % (uname, fn, short_msg(d.message))
             props = prim.props if prim is not None else None
@@ -213,6 +221,7 @@ def obligations_for(uf, prop, mod):
             obs.append({"id": oid, "kind": "clause", "text": re.sub(r"\s+", " ", text)[:300],
                         "fn": oid.split(".")[1]})
     for fn, props in uf.fn_props.items():
+        props = uf.safety_props.get(fn, props)
         if prop in props:
             obs.append({"id": "%s.%s.safety" % (uf.unit, fn), "kind": "safety", "fn": fn,
                         "text": "no panic / overflow / out-of-bounds; callee preconditions hold"})
